@@ -968,28 +968,34 @@ def category(check: str, msg: str) -> str:
 
 
 def finding_key(f: dict[str, Any]) -> str:
+    if f["mode"] == "inspect" and f["check"] != "ast":
+        # the inspection generator loses so much on pure-Python modules (nearly every construct x check combination fails
+        # for some seed) that one entry per check is kept; syntactically invalid output stays keyed by construct
+        return f"{f['check']}:inspect"
     if f["check"] == "ast" or f["family"] == "fn_dunder":
         # one root cause, many message variants
         return f"{f['check']}:{f['mode']}:{f['family']}"
-    if f["mode"] == "inspect":
-        # the inspection generator loses so much on pure-Python modules that one entry per (check, construct) is kept
-        return f"{f['check']}:inspect:{f['family']}"
     return f"{f['check']}:{f['mode']}:{f['family']}:{category(f['check'], f['msg'])}"
 
 
 def baseline_stubtest(vlib, root: str, mods: list[Mod]) -> set[str]:
     """stubtest of every source module against ITSELF (the .py file is what mypy finds as the 'stub'): whatever it reports
-    there is strictness of the oracle that no stub generator could satisfy; those exact reports are subtracted."""
+    there is strictness of the oracle that no stub generator could satisfy; those exact reports are subtracted.
+    A module for which this baseline cannot be computed (its source does not build under stubtest) gets the marker
+    "<nobaseline>NAME": its stubtest reports are not used at all (they could be oracle strictness)."""
     env = vlib.py_env()
     env.pop("MYPYPATH", None)
     st, o, infra = tool(vlib, [vlib.PY, "-m", "mypy.stubtest", "--concise", *["pk.gen." + m.name for m in mods]], os.path.join(root, "src"), env, 900)
     out: set[str] = set()
     if infra:
         return {"<infra>"}
-    if "not checking stubs due to" in o and len(mods) > 1:
-        with ThreadPoolExecutor(max_workers=4) as ex:
-            for r in ex.map(lambda m: baseline_stubtest(vlib, root, [m]), mods):
-                out |= r
+    if "not checking stubs due to" in o or st not in (0, 1):
+        if len(mods) > 1:
+            with ThreadPoolExecutor(max_workers=4) as ex:
+                for r in ex.map(lambda m: baseline_stubtest(vlib, root, [m]), mods):
+                    out |= r
+        else:
+            out.add("<nobaseline>" + mods[0].name)
         return out
     for ln in o.splitlines():
         mm = re.match(r"pk\.gen\.(\w+)(?:\.(\w+))?(\S*) (.*)$", ln)
@@ -1025,6 +1031,7 @@ def s_stage(ctx, vlib) -> None:
             baseline = {r: f.result() for (r, _), f in zip(bjobs, fb)}
         ctx.cov["S_stubtest_baseline_reports"] = sum(len(v) for v in baseline.values())
         subtracted = 0
+        nobase: set[tuple[str, str]] = set()
         groups: dict[str, list[tuple[dict, Mod, str, bool]]] = {}
         nmods = 0
         infra_skips = 0
@@ -1047,6 +1054,9 @@ def s_stage(ctx, vlib) -> None:
                 if f.get("obj") in baseline[root]:
                     subtracted += 1
                     continue
+                if f["check"] == "stubtest" and "<nobaseline>" + f["module"] in baseline[root]:
+                    nobase.add((root, f["module"]))
+                    continue
                 m = byname.get(f["module"])
                 groups.setdefault(finding_key(f), []).append((f, m, r.get("stubs", {}).get(f["module"], ""), future.get(f["module"], False)))
         for key in sorted(groups):
@@ -1060,6 +1070,8 @@ def s_stage(ctx, vlib) -> None:
         if infra_skips == len(jobs):
             ctx.broke("S", "cross-tool oracle", "no shard could be checked: every tool run was killed or timed out")
         ctx.cov["S_stubtest_reports_subtracted_as_oracle_strictness"] = subtracted
+        ctx.cov["S_modules_without_stubtest_baseline"] = sum(1 for v in baseline.values() for y in v if y.startswith("<nobaseline>"))
+        ctx.cov["S_modules_whose_stubtest_reports_were_ignored_for_that"] = len(nobase)
         ctx.cov["S_distinct_finding_keys"] = len(groups)
         ctx.log(f"S: {nmods} (module, mode) pairs, {len(groups)} distinct finding keys ({time.time()-t0:.0f}s)")
     finally:
